@@ -33,6 +33,8 @@ type writerLoop struct {
 	// searchAnchor is where the stored points are searched (the nested loop, or the
 	// statement of the merge loop that hands them to a search helper).
 	searchAnchor ast.Node
+	hm           *hashModel
+	anchor       ast.Node // where reports about the merge are attached
 }
 
 func (wl *writerLoop) obj(e ast.Expr) types.Object { return kit.ObjOf(wl.f.Info(), e) }
@@ -42,9 +44,13 @@ func newWriterLoop(c *kit.Ctx, m *storeModel, w *pointWriter) *writerLoop {
 	f := w.F
 	info := f.Info()
 	// wp: X of the range statement enclosing the Exec
+	// The roles below are only anchors for reports and for the structural lock-step
+	// rule; the merge outcome itself is computed on values (wsym.go) and does not
+	// need them.
+	wl.anchor = w.Exec.Call
 	rs := f.EnclosingLoop(w.Exec.Call)
 	if rs == nil {
-		c.Fatalf("%s: the INSERT Exec is not inside a range loop over the points to write", f.Name)
+		return wl
 	}
 	wl.wp = wl.obj(rs.X)
 	// wids: Exec arg0 is ids[i] or a variable assigned ids[i]
@@ -90,8 +96,9 @@ func newWriterLoop(c *kit.Ctx, m *storeModel, w *pointWriter) *writerLoop {
 		}
 	}
 	if wl.inLoop == nil || wl.wp == nil || wl.wids == nil {
-		c.Fatalf("%s: merge loop roles not found (inLoop=%v wp=%v wids=%v)", f.Name, wl.inLoop != nil, wl.wp != nil, wl.wids != nil)
+		return wl
 	}
+	wl.anchor = wl.inLoop
 	// dbLoop: loop nested in inLoop over a data.Points variable other than the batch
 	for _, r := range f.SliceLoops(wl.inLoop.Body) {
 		if wl.dbLoop != nil {
@@ -151,7 +158,7 @@ func newWriterLoop(c *kit.Ctx, m *storeModel, w *pointWriter) *writerLoop {
 			return true
 		})
 		if len(order) != 1 {
-			c.Fatalf("%s: no loop over the stored points inside the merge loop (and %d candidate stored-point slices handed to helpers)", f.Name, len(order))
+			return wl
 		}
 		wl.dbPts = order[0]
 		wl.searchAnchor = cands[order[0]]
@@ -175,8 +182,9 @@ const dbIndexMark = "7"
 
 // valuation of one merge-loop iteration.
 type mergeVal struct {
-	rows   int  // 0 or 1 stored row
-	eqType bool // meaningful when rows == 1
+	rowsV  []mergeRow // per-row valuations when rows > 1
+	rows   int        // 0 or 1 stored row
+	eqType bool       // meaningful when rows == 1
 	eqKey  bool
 	order  string // "lt" (stored older), "eq", "gt" (stored newer)
 	kempty bool   // incoming key is ""
@@ -202,6 +210,11 @@ type mergeOutcome struct {
 	normC    string   // normalisation constant seen
 	unknown  []string // unrelated conditions the outcome depended on
 	paths    int
+	// binds: column of the prepared INSERT -> the values bound to it (symbolic terms)
+	binds    map[string]map[string]bool
+	execArgs int
+	// props: per successful exit "<entry calls>|<terms handed to the entry>|<commit before propagation>|<x: effects>"
+	props []string
 }
 
 func tbool(b bool) string {
@@ -211,8 +224,12 @@ func tbool(b bool) string {
 	return "F"
 }
 
-// run evaluates one iteration of the merge loop under v.
-func (wl *writerLoop) run(v mergeVal) *mergeOutcome {
+// run evaluates the writer under v (symbolically, see wsym.go).
+func (wl *writerLoop) run(v mergeVal) *mergeOutcome { return wl.runSym(v) }
+
+// runRoles is the earlier role-based model of one merge-loop iteration (kept for
+// reference and differential checks during development).
+func (wl *writerLoop) runRoles(v mergeVal) *mergeOutcome {
 	f := wl.f
 	info := f.Info()
 	out := &mergeOutcome{}
